@@ -209,6 +209,18 @@ func c10Gen(r *verifh.Rand, i int) interface{} {
 		}
 		in.Retry = rt
 	}
+	// Cancellation at a LATER attempt (audit item 16): attempt 0 fails with a response-type failure, the 2 s
+	// back-off is really slept (fixed back-off, f = 0), and the client goes away inside attempt 1. The
+	// following select has ctx.Done() ready and a 2 s timer: strict judging, no race. Rare (each costs 2 s).
+	lateCancel := false
+	if in.Retry != nil && tkind != 1 && !cancelCase && !defaultWait && r.Bool(1, 90) {
+		lateCancel = true
+		in.Retry.Wait, in.Retry.Backoff, in.Retry.FNum, in.Retry.FDen = "2s", "random", 0, 1
+		if in.Retry.Max < 3 {
+			in.Retry.Max = 3
+		}
+		in.CB = nil
+	}
 	if in.Retry == nil && tkind != 1 && r.Bool(1, 4) {
 		cancelCase = true // no back-off at all: only the 499 classification is exercised
 	}
@@ -221,7 +233,7 @@ func c10Gen(r *verifh.Rand, i int) interface{} {
 	if in.Retry != nil {
 		max = in.Retry.Max
 	}
-	if defaultWait {
+	if defaultWait || lateCancel {
 		nreq = 1
 	}
 	for q := 0; q < nreq; q++ {
@@ -231,6 +243,14 @@ func c10Gen(r *verifh.Rand, i int) interface{} {
 			rq.SKind = r.Pick("", "", "cl0", "cl0", "clneg", "unk0")
 		}
 		rq.Script = c10GenScript(r, max+1, tkind, in.FailureCodes)
+		if lateCancel {
+			rq.Stream = false
+			rq.Cancel, rq.At = r.Pick("during", "backoff"), 1
+			rq.Script[0] = "bad"
+			if rq.Cancel == "backoff" && len(rq.Script) > 1 {
+				rq.Script[1] = "bad"
+			}
+		}
 		if cancelCase {
 			// Every request of a cancel case is cancelled at its first transport call (or is
 			// answered at once), so the 3 s back-off of the case is never actually slept.
